@@ -602,50 +602,34 @@ pub fn read_shape<R: TInputProtocol>(r: &mut R, shape: u8, l: &Leaves) -> bool {
 }
 
 /// After skipping a struct that contains a bool FIELD, a bool read as a container ELEMENT must
-/// come from the wire (compact keeps the field's bool in reader state).
+/// come from the wire (compact keeps the field's bool in reader state). Minimal form: the
+/// struct {1: bool} is skipped directly and a bare bool element follows it.
 #[cfg(kani)]
-pub fn skip_struct_then_bool<P: Proto>() {
-    let fb: bool = kani::any();
+pub fn skip_struct_then_bool<P: Proto, const FB: bool>() {
+    // the FIELD's bool is concrete per instance: in compact it is part of the field-header byte,
+    // and a symbolic header byte makes every type arm of the recursive skipper feasible
+    let fb: bool = FB;
     let eb: bool = kani::any();
-    let mut out = BytesMut::with_capacity(32);
+    let mut out = BytesMut::with_capacity(16);
     {
         let mut w = P::writer(&mut out);
-        ok(w.write_struct_begin(&SID));
-        ok(w.write_field_begin(TType::Struct, 1));
         ok(w.write_struct_begin(&SID));
         ok(w.write_field_begin(TType::Bool, 1));
         ok(w.write_bool(fb));
         ok(w.write_field_end());
         ok(w.write_field_stop());
         ok(w.write_struct_end());
-        ok(w.write_field_end());
-        // a list<bool> with one element follows as field 2
-        ok(w.write_field_begin(TType::List, 2));
-        ok(w.write_list_begin(TListIdentifier { element_type: TType::Bool, size: 1 }));
         ok(w.write_bool(eb));
-        ok(w.write_list_end());
-        ok(w.write_field_end());
-        ok(w.write_field_stop());
-        ok(w.write_struct_end());
         P::finish(w);
     }
+    let total = out.len();
     let mut b = out.freeze();
     let mut r = P::reader(&mut b);
-    ok(r.read_struct_begin());
-    let f = ok(r.read_field_begin());
-    kani::assert(f.field_type == TType::Struct, "HARNESS: first field is the struct");
-    ok(r.skip(TType::Struct));
-    ok(r.read_field_end());
-    let f = ok(r.read_field_begin());
-    kani::assert(f.field_type == TType::List && f.id == Some(2), "C07: the field after a skipped struct is found");
-    let l = ok(r.read_list_begin());
-    kani::assert(l.element_type == TType::Bool && l.size == 1, "C07: list header after a skipped struct");
+    let n = ok(r.skip_till_depth(TType::Struct, 3));
+    kani::assert(n + 1 == total, "C07: skip reports the bytes of the struct");
     let got = ok(r.read_bool());
     kani::assert(got == eb, "C07: a bool element after a skipped struct with a bool field is decoded as if the struct had never been there");
-    ok(r.read_list_end());
-    ok(r.read_field_end());
-    let f = ok(r.read_field_begin());
-    kani::assert(f.field_type == TType::Stop && P::remaining(&mut r) == 0, "C07: everything consumed");
+    kani::assert(P::remaining(&mut r) == 0, "C07: everything consumed");
     kani::cover!(fb != eb, "field bool differs from element bool");
     kani::cover!(true, "reached end");
     core::mem::forget(r);
